@@ -11,6 +11,7 @@ import (
 	"fmt"
 	"io"
 	"sync"
+	"sync/atomic"
 )
 
 // This file is only compiled with the build tag "verif". It gives the
@@ -46,7 +47,7 @@ func VerifNewConn(ctx context.Context, info *Info, conn io.ReadWriteCloser, star
 }
 
 // VerifSetPacketSize sets the packet size in force.
-func (tds *Conn) VerifSetPacketSize(n int) { tds.packetSize = n }
+func (tds *Conn) VerifSetPacketSize(n int) { atomic.StoreInt64(&tds.packetSize, int64(n)) }
 
 // VerifCancel cancels the connection context.
 func (tds *Conn) VerifCancel() { tds.ctxCancel() }
